@@ -44,12 +44,31 @@ func intGrid(quick bool) []int64 {
 		set[v] = true
 	}
 	step := 1
+	ds := []int64{-3, -2, -1, 0, 1, 2, 3}
 	if quick {
 		step = 3
+		ds = []int64{-1, 0, 1}
+	} else {
+		// thorough: also 3*2^k, 5*2^k and 10^k ladders
+		for k := 0; k <= 61; k++ {
+			for _, m := range []int64{3, 5} {
+				v := new(big.Int).Lsh(big.NewInt(m), uint(k))
+				add(v)
+				add(new(big.Int).Neg(v))
+			}
+		}
+		t := big.NewInt(1)
+		for k := 0; k <= 18; k++ {
+			for _, d := range []int64{-1, 0, 1} {
+				add(new(big.Int).Add(t, big.NewInt(d)))
+				add(new(big.Int).Neg(new(big.Int).Add(t, big.NewInt(d))))
+			}
+			t = new(big.Int).Mul(t, big.NewInt(10))
+		}
 	}
 	for k := 1; k <= 63; k += step {
 		p := new(big.Int).Lsh(big.NewInt(1), uint(k))
-		for _, d := range []int64{-1, 0, 1} {
+		for _, d := range ds {
 			add(new(big.Int).Add(p, big.NewInt(d)))
 			add(new(big.Int).Neg(new(big.Int).Add(p, big.NewInt(d))))
 		}
@@ -579,6 +598,77 @@ func gridWorker(w *vf.Worker) {
 								viol(op.name, fstr(a)+"f", fmt.Sprint(b), "no crash", fmt.Sprintf("PANIC %v", p))
 							}
 						}
+					}
+				}
+			}
+		}
+	}
+	// targeted pairs: for every grid value a, the partners b that put a+b, a-b, a*b, a/b exactly on, one below and
+	// one above the int64 boundaries (so every a meets its own overflow edge, not only the grid's)
+	for _, op := range ops {
+		op := op
+		if op.name != "+" && op.name != "-" && op.name != "*" && op.name != ".+" && op.name != ".*" && op.name != "//" && op.name != "/" && op.name != "%" && op.name != "**" {
+			continue
+		}
+		if o := os.Getenv("VERIF_C07_OP"); o != "" && o != op.name {
+			continue
+		}
+		idx++
+		if !w.Mine(idx) {
+			continue
+		}
+		w.Begin(idx)
+		for _, a := range G {
+			A := big.NewInt(a)
+			var partners []int64
+			addp := func(v *big.Int) {
+				for _, d := range []int64{-2, -1, 0, 1, 2} {
+					x := new(big.Int).Add(v, big.NewInt(d))
+					if x.IsInt64() {
+						partners = append(partners, x.Int64())
+					}
+				}
+			}
+			addp(new(big.Int).Sub(bigMax, A))
+			addp(new(big.Int).Sub(bigMin, A))
+			addp(new(big.Int).Sub(A, bigMax))
+			addp(new(big.Int).Sub(A, bigMin))
+			if a != 0 {
+				addp(new(big.Int).Quo(bigMax, A))
+				addp(new(big.Int).Quo(bigMin, A))
+			}
+			if op.name == "**" {
+				partners = partners[:0]
+				if a > 1 || a < -1 {
+					// exponents around log_|a|(2^63)
+					e := int64(1)
+					p := new(big.Int).Abs(A)
+					for p.BitLen() <= 64 {
+						p.Mul(p, new(big.Int).Abs(A))
+						e++
+					}
+					partners = append(partners, e-2, e-1, e, e+1)
+				}
+			}
+			for _, b := range partners {
+				for dir := 0; dir < 2; dir++ {
+					x, y := a, b
+					if dir == 1 {
+						x, y = b, a
+						if op.name == "**" {
+							continue
+						}
+					}
+					var got *mlrval.Mlrval
+					p, _ := vf.Try(func() { got = op.fn(mlrval.FromInt(x), mlrval.FromInt(y)) })
+					w.Eval(1)
+					w.Count("targeted_boundary_pairs", 1)
+					if p != nil {
+						viol(op.name, fmt.Sprint(x), fmt.Sprint(y), "a number or error value", fmt.Sprintf("PANIC %v", p))
+						continue
+					}
+					if exp := op.ii(x, y); exp.kind != "roundm" && !matches(exp, got) {
+						viol(op.name, fmt.Sprint(x), fmt.Sprint(y), exp.String(), describe(got))
 					}
 				}
 			}
